@@ -70,6 +70,16 @@ func (w *World) verifyContractPass(con *Contract, clean map[string]bool) *Gen {
 	fn := w.funcs[con.Name]
 	g := w.newGen(fn, con)
 	g.clean = clean
+	// global axioms (facts about package-level variables of libraries; listed in the trusted base)
+	for _, ax := range w.db.Axioms {
+		env := &Env{g: g, vars: map[string]Val{}, heap: &Heap{cur: map[string]string{}}}
+		t, err := g.trBool(ax.E, env)
+		if err != nil {
+			g.errorf("axiom %s: %v", ax.Name, err)
+			continue
+		}
+		g.assume(t)
+	}
 	g.fnName = con.Name
 	g.checkOverflow = con.NoOverflow == ""
 	if fn == nil || len(fn.Blocks) == 0 {
@@ -246,7 +256,11 @@ func (f *frame) frameGoal(name, cur string) (string, bool) {
 		case m.idx == "":
 			return "", false
 		default:
-			excl = append(excl, fmt.Sprintf("(not (= x!fr %s))", m.idx))
+			if m.cond != "" {
+				excl = append(excl, fmt.Sprintf("(not (and %s (= x!fr %s)))", m.cond, m.idx))
+			} else {
+				excl = append(excl, fmt.Sprintf("(not (= x!fr %s))", m.idx))
+			}
 		}
 	}
 	conds := []string{fmt.Sprintf("(select %s x!fr)", al0)}
